@@ -13,7 +13,7 @@ from sim.faults import FAULT_KINDS, FaultyLark, ParseSeam, text_key
 # valid in unusual ways: empty / blank parts (fbody: stmt* accepts them), braces inside string literals
 SIZES = [b + d for b in (256, 512, 1024, 2048, 4096) for d in (-1, 0, 1)]
 HUGE = ["{ fatal(\"%s\"); }" % (c * 70000) for c in "abc"]
-EDGE_OK = ["", "   ", "{ RdV = IS_INF(RsV); }", "{ fatal(\"{\"); }", "{ fatal(\"} {\"); }", "{ fatal(\"a  b\"); }", "{ fatal(\"a\tb   c\"); }"]
+EDGE_OK = ["", "   ", "{ RdV = IS_INF(RsV); }", "{ RdV = PuV ? P0:1; }", "{ RdV = RsV ? R1:0; }", "{ RdV = b---c; }", "{ RdV = (cnt_t) - RsV; }", "{ fatal(\"{\"); }", "{ fatal(\"} {\"); }", "{ fatal(\"a  b\"); }", "{ fatal(\"a\tb   c\"); }"]
 BROKEN = [
     # double faults: an early lexical error *and* an unbalanced brace
     "{ RdV = RsV $ 1; ",
@@ -268,6 +268,7 @@ class EngineP(EngineBase):
         wl = {"mode": mode, "tasks": tasks, "plan": plan}
         wl["start"] = "spawn" if ch.chance(3, 10, "start-method") else "fork"
         # the clock of the workers and the threads of the caller belong to the simulated environment
+        wl["caller_thread"] = ch.chance(1, 4, "caller-thread")
         wl["stale_timers_fire"] = ch.chance(1, 2, "stale-timers")
         wl["fork_with_held_locks"] = wl["start"] == "fork" and ch.chance(1, 4, "held-locks")
         if ncalls > 1 and ch.chance(1, 3, "overlap"):
@@ -290,7 +291,7 @@ class EngineP(EngineBase):
 
     def describe(self, wl):
         return {"mode": wl["mode"], "plan": wl["plan"],
-                "start": wl.get("start"), "pool_fail": wl.get("pool_fail"), "stale_timers_fire": wl.get("stale_timers_fire"),
+                "start": wl.get("start"), "pool_fail": wl.get("pool_fail"), "stale_timers_fire": wl.get("stale_timers_fire"), "caller_thread": wl.get("caller_thread"),
                 "fork_with_held_locks": wl.get("fork_with_held_locks"), "overlap": wl.get("overlap"), "overlap_at": wl.get("overlap_at"), "cpus": wl.get("cpus"), "n_tasks": len(wl["tasks"]),
                 "tasks": [{"name": t["name"], "call": t.get("call", 0), "parts": [p[:80] + (f"...[{len(p)} chars]" if len(p) > 80 else "") for p in t["parts"]]}
                           for t in wl["tasks"][:40]]}
@@ -471,7 +472,15 @@ class EngineP(EngineBase):
             try:
                 if len(group) == 2:
                     simpool.SimPool.reentry = {"at": int(workload.get("overlap_at", 0)), "count": 0, "fn": lambda: run_call(group[1])}
-                run_call(group[0])
+                if workload.get("caller_thread"):
+                    # the API is called from a thread other than the main thread (the whole simulation of this call,
+                    # forks included, then runs on that thread)
+                    import threading
+                    th = threading.Thread(target=run_call, args=(group[0],), name="caller-thread")
+                    th.start()
+                    th.join()
+                else:
+                    run_call(group[0])
                 simpool.SimPool.reentry = None
                 if len(group) == 2 and group[1] not in results:
                     run_call(group[1])          # the first call never blocked that often: plain succession
@@ -485,6 +494,7 @@ class EngineP(EngineBase):
             if any(results[ci][1] is not None for ci in group):
                 break
         out.count("overlapping_calls", stats.get("reentries", 0))
+        out.count("runs_called_from_second_thread", 1 if workload.get("caller_thread") else 0)
         out.count("runs_with_stale_timer_policy", 1 if workload.get("stale_timers_fire") else 0)
         out.count("runs_forked_with_held_locks_policy", 1 if workload.get("fork_with_held_locks") else 0)
         out.count("workers_stuck", stats.get("worker_stuck", 0))
